@@ -23,7 +23,7 @@ def describe(tier):
                 % DEPTH[tier],
         'bounds': 'alphabet 5, BFS to fixpoint (cap %d states), all 5^k sequences k<=%d' % (STATE_CAP, DEPTH[tier]),
         'assumptions': ['hidden state can only live in the EDB object, the token objects or the scheme/config object (canon covers these three)'],
-        'must_be_nonzero': ['bfs-fixpoint', 'sequences', 'inputs-checked', 'inputs-checked-bytearray-ids', 'refused-builds-checked', 'default-config-checked', 'config-variants-checked', 'second-index'],
+        'must_be_nonzero': ['bfs-fixpoint', 'sequences', 'inputs-checked', 'inputs-checked-bytearray-ids', 'refused-builds-checked', 'inputs-checked-tuple-lists', 'default-config-checked', 'config-variants-checked', 'second-index'],
     }
 
 
@@ -223,6 +223,8 @@ def run_inputs(r, seed, p, tier):
     # a build that is REFUSED part-way (the last identifier of the last keyword is a str, not bytes) is still "building an index":
     # the caller's database, as it was handed in, is what the caller gets back
     variants += [(q, 'refused') for q in profs if 2 <= sum(q) <= (6 if tier == 'quick' else 9)]
+    # posting lists handed over as tuples (any sequence is accepted): they are still the caller's tuples afterwards
+    variants += [(q, 'tuple-lists') for q in profs if sum(q) <= (5 if tier == 'quick' else 7)]
     for prof, idtype in variants:
         case = {'scheme': name, 'label': label, 'cfg': cfg, 'profile': prof, 'inputs': True}
         if idtype != 'bytes':
@@ -231,12 +233,15 @@ def run_inputs(r, seed, p, tier):
         db, cfg1, g = sse.build_db(seed, name, label, cfg, prof, 6, 'shared' if sum(prof) % 2 else 'disjoint')
         if idtype == 'bytearray':
             db = {w: [bytearray(i) for i in v] for w, v in db.items()}
+        if idtype == 'tuple-lists':
+            db = {w: tuple(v) for w, v in db.items()}
         det.seed_case(seed, PROPERTY, 'inputs', name, label, tuple(prof))
         if idtype == 'refused':
             lastw = list(db)[-1]
             db[lastw] = list(db[lastw][:-1]) + [db[lastw][-1].hex()]
         db0, cfg0 = copy.deepcopy(db), copy.deepcopy(cfg1)
         order0 = [(w, list(v)) for w, v in db.items()]
+        types0 = [type(v) for v in db.values()]
         if idtype == 'refused':
             r['evaluations'] += 1
             try:
@@ -260,15 +265,15 @@ def run_inputs(r, seed, p, tier):
             edb = scheme.EDBSetup(key, db)
             r['transitions'] += 2
         except Exception:
-            r.count("setup-raises (C01's subject, skipped here)" if idtype == 'bytes' else 'bytearray-identifiers-refused')
+            r.count("setup-raises (C01's subject, skipped here)" if idtype == 'bytes' else idtype + '-refused')
             continue
         r.count('inputs-checked')
         if idtype != 'bytes':
-            r.count('inputs-checked-bytearray-ids')
+            r.count('inputs-checked-bytearray-ids' if idtype == 'bytearray' else 'inputs-checked-' + idtype)
         r['nontrivial'] += 1
 
         def chk(stage):
-            if db != db0 or [(w, list(v)) for w, v in db.items()] != order0:
+            if db != db0 or [(w, list(v)) for w, v in db.items()] != order0 or [type(v) for v in db.values()] != types0:
                 r.v(PROPERTY, name, 'input-mutated', 'database/' + stage, case, 'database unchanged', 'database differs from its deep copy')
                 r.outcome('db-mutated')
             if cfg1 != cfg0 or list(cfg1) != list(cfg0):
